@@ -34,6 +34,13 @@ type Chooser interface {
 	Choose(kind string, n int) int
 }
 
+// TaskChooser is an optional extension: a chooser that wants to know which tasks it chooses
+// among (priority-based policies). ids[i] is the deterministic id of candidate i, in the same
+// order Choose would see them (the current task first, if it is runnable).
+type TaskChooser interface {
+	ChooseTask(kind string, ids []string) int
+}
+
 type zeroChooser struct{}
 
 //go:norace
@@ -560,15 +567,25 @@ func (s *Sched) pick() *Task {
 	}
 	idx := 0
 	if len(cands) > 1 {
+		choose := s.chooser.Choose
+		if tc, ok := s.chooser.(TaskChooser); ok {
+			choose = func(kind string, n int) int {
+				ids := make([]string, 0, n)
+				for _, c := range cands[len(cands)-n:] {
+					ids = append(ids, c.ID)
+				}
+				return tc.ChooseTask(kind, ids)
+			}
+		}
 		if curIdx >= 0 && s.consec >= s.MaxRun {
 			// fairness: a task that has run MaxRun times in a row yields to the others
-			idx = 1 + s.chooser.Choose("fair", len(cands)-1)
+			idx = 1 + choose("fair", len(cands)-1)
 		} else {
 			kind := "task" // cands[0] is the current task: 0 = no preemption
 			if curIdx < 0 {
 				kind = "next" // the current task blocked or exited: a free choice
 			}
-			idx = s.chooser.Choose(kind, len(cands))
+			idx = choose(kind, len(cands))
 		}
 		if idx < 0 || idx >= len(cands) {
 			idx = 0
